@@ -1,5 +1,23 @@
 """Property -> machinery."""
 PROPS = {
+    "C03": {
+        "x": ["harness.hC03"],
+        "extra": ["harness.pC03.run"],
+        "level": "other",
+        "explanation": "Engine X: the real back end of compile() (routine_op_offsets_are_ordered, strip_last_label, "
+                       "LabelFinalizer, OpsLabelJumpToRemover) is executed symbolically on labelled op lists of every "
+                       "kind sequence up to the bound, with symbolic label ids (defined / undefined / shared) and "
+                       "symbolic offset gaps; post: unique offsets, target-last and in-range for every jump-carrying op, "
+                       "no pseudo op left, undefined label <=> SsbCompilerError, non-alias routines non-empty. The "
+                       "closure predicate is also evaluated on all real compilation results of F1-F5 (model validation).",
+        "technique": "CrossHair+z3 symbolic execution of the real label/jump back end over all kind sequences "
+                     "(case split) with symbolic label ids and offsets",
+        "level_text": "All labelled lists up to 3 (quick) / 4 (thorough) elements are covered by the solver; longer "
+                      "lists only through the enumerated compilation results.",
+        "level_note": "Trusted: CrossHair, z3. The input model (what the visitors can hand to the back end) is validated "
+                      "against real compilation results each run.",
+        "assumptions": ["labels are shared objects per name with ids 0..2", "routine ids with gaps are outside the claim"],
+    },
     "C07": {
         "x": ["harness.hC07"],
         "extra": ["harness.pC07.run"],
